@@ -122,6 +122,7 @@ class Engine:
         self.stdout = []                        # ghost stdout: (pc, template)
         self.external_classes = {"depq.DEPQ": "DEPQ"}
         self.elem_family = {}
+        self._heap_fact_ids = set()
 
     # ------------------------------------------------------------------ helpers
     def fresh(self, base, sort):
@@ -228,8 +229,18 @@ class Engine:
             # heap well-formedness (Python has no dangling or future references): a stored reference denotes None
             # or an object that has already been allocated.  (Not recorded for loads under a spec quantifier: the
             # loaded term mentions the bound variable.)
-            state.assume(z3.And(e >= 0, e < state.abase + state.nalloc))
+            self.heap_fact(z3.And(e >= 0, e < state.abase + state.nalloc))
         return self.wrap(self.norm(e), t)
+
+    def heap_fact(self, f):
+        """heap well-formedness facts about a loaded term are unconditional (they do not depend on the branch or the
+        short-circuit guard under which the load happens): kept with the axioms instead of the path condition, so that
+        they are not wrapped into every enclosing guard"""
+        f = simp(f)
+        k = f.get_id()
+        if k not in self._heap_fact_ids:
+            self._heap_fact_ids.add(k)
+            self.axioms.append(f)
 
     @staticmethod
     def norm(e):
@@ -1032,6 +1043,12 @@ class Engine:
             items.append(self.eval(state, node.elt))
         state.env = saved
         return self.list_from_items(state, items)
+
+    def e_Dict(self, state, node):
+        for v in node.values:
+            if v is not None:
+                self.eval(state, v)
+        return Opaque("dict")          # option dictionaries handed to dependencies: never inspected by the verified code
 
     def e_JoinedStr(self, state, node):
         for v in node.values:
